@@ -8,33 +8,33 @@ def check(pid, engine, cat, text, note, technique, design_ref):
     CHECKS[pid] = dict(engine=engine, cat=cat, text=text, note=note, technique=technique, design_ref=design_ref)
 
 check("C05", "dsu", "model_checking",
-      "Reachable-state closure of the real DSU for every element count up to 7 (quick) / 9 (thorough): every un/par/check/size/reset/clone in every reached state against a partition model, with representative stability and the floor(log2) depth bound as state invariants. The search closes, so histories of any length over <= N elements are covered; sizes beyond N only through a fixed menu of directed adversarial union orders up to 2^16 (quick) / 2^20 (thorough) elements, which is labelled non-exhaustive.",
+      "Reachable-state closure of the real DSU for every element count up to 7 (quick) / 9 (thorough): every un/par/check/size/reset/clone/clone_from (into targets with a different history) in every reached state against a partition model, with representative stability and the floor(log2) depth bound as state invariants. The search closes, so histories of any length over <= N elements are covered; sizes beyond N only through a fixed menu of 12 directed adversarial union orders up to 2^18 (quick) / 2^20 (thorough) elements run in a child process with a 256 KiB stack, labelled non-exhaustive.",
       "Trusted: the harness's partition model; the derived Debug rendering shows the complete DSU state. Bounded: element counts above N are covered only by the directed menu.",
       "explicit-state BFS to closure over the implementation's own states (parallel, full canonical keys), lockstep reference model",
       "DESIGN.md §4 C05")
 
 check("C01", "seg", "model_checking",
-      "Breadth-first search over the real Segtree's own node array (hook verif_nodes) with a plain-array model in lockstep. For a finite non-commutative algebra (words over {0,1} with the four non-commuting functions as modifiers) and for Sum<Z3>, Min/Max<u8>, SumAdd<Z4> and a nested Combinator the search runs to CLOSURE for every n <= 6 (quick) / 7 (thorough), so histories of any length over set/modify/ask/debug from all three constructors are covered; the free algebra (decides 'every lawful item type', see DESIGN) and the i64 built-ins and their Combinator nestings are covered for all histories up to a stated depth for n <= 9 / n <= 7.",
+      "Breadth-first search over the real Segtree's own node array (hook verif_nodes) with a plain-array model in lockstep. To CLOSURE (histories of any length over set/modify/ask/debug from all three constructors) for a finite non-commutative algebra (words over {0,1} with the four non-commuting functions as modifiers), a second one over Z3, a lazy item with a data-less modifier (M = ()), Sum<Z3>, Min/Max<u8>, SumAdd<Z4>, a Combinator of two NON-commutative parts and nested Combinators, for every n <= 6 (quick) / 7 (thorough). Bounded depth: the free algebra (decides 'every lawful item type', see DESIGN) n <= 9, the i64 built-ins and their Combinator nestings, elements at i64::MAX / i64::MIN, Min/Max over records compared by key only, and every algebra again with elements that carry a stale pending modifier (read back from another tree). Plus a size sweep: directed histories on the free algebra for every n <= 40 (130) and the neighbours of every power of two up to 1025 (4097).",
       "Trusted: the harness item algebras satisfy the monoid-action laws; the free-algebra homomorphism argument of DESIGN §4 C01. Bounded: n above the closed sizes; depth for the unbounded-value algebras.",
       "explicit-state BFS to closure over the implementation's node array, lockstep plain-array reference model",
       "DESIGN.md §4 C01")
 check("C02", "seg", "model_checking",
-      "Same state spaces as C01 (so every reachable configuration of pending modifiers), with lower_bound and lower_bound_rev applied at every position for every predicate of a monotone family (length thresholds incl. always-true/always-false, contains-1, two-1s, order-sensitive 1-then-0; value thresholds for the built-ins) in every reached state. Judged: the returned index against the definition, every aggregate shown to the predicate must be the in-order merge of [l..=r'] for some r', and the logical array is unchanged afterwards.",
+      "Same state spaces as C01 (so every reachable configuration of pending modifiers), with lower_bound and lower_bound_rev applied at every position for every predicate of a monotone family (length thresholds incl. always-true/always-false, contains-1, two-1s, order-sensitive 1-then-0; value thresholds for the built-ins) in every reached state, and in the size sweep up to n = 1025 (4097). Judged: the returned index against the definition, every aggregate shown to the predicate must be the in-order merge of [l..=r'] for some r' >= l (never the empty aggregate, never the whole array), and the logical array is unchanged afterwards.",
       "Trusted: as C01. The predicate family is finite; monotone predicates outside it are not enumerated.",
       "explicit-state BFS to closure, searches as judged transitions, predicate-argument logging",
       "DESIGN.md §4 C02")
 check("C06", "mint", "exploration",
-      "Exhaustive over every modulus 2..=64: all ordered residue pairs for + - * / and assigning forms, neg, inv for every unit, new for every v in [-3M,3M] plus i64 boundary values, pow for e in 0..=2M plus u64 boundary exponents, Display/Debug/Writable/Readable through the real Reader/Writer; boundary residue pairs for 7 large moduli incl. 2^31-1; the same enumeration repeated in a build with overflow checks (an overflow panic is a violation); thorough adds the complete inverse tables of 998244353 and 2^31-1.",
+      "Exhaustive over every modulus 2..=64: all ordered residue pairs for + - * / and assigning forms, neg, inv for every unit, new for every v in [-3M,3M] plus i64 boundary values, pow for e in 0..=2M plus boundary exponents, Display/Debug/Writable/Readable through the real Reader/Writer; for 11 large moduli (998244353, 1e9+7, around 2^30 and 2^31, and 46337/46341/65536/65537 where M^2 stops fitting 31/32 bits) all pairs of a 97-value residue boundary set (every 2^k, 2^k±1, M/2, M-1..M-3, sqrt M) and exponents 0..=128 and 2^k±1. The case list is executed under three deterministic schedules (each modulus alone on a fresh thread; all moduli ascending / descending on one thread) so that state leaking between generic instantiations shows; the same enumeration is repeated in a build with overflow checks; thorough adds the complete inverse tables of 998244353 and 2^31-1.",
       "Trusted: i128 reference arithmetic. Bounded: moduli between 65 and 2^31 other than the seven listed are not instantiated.",
       "exhaustive small-scope input enumeration against an i128 reference, two build profiles",
       "DESIGN.md §4 C06")
 check("C07", "rational", "exploration",
-      "Exhaustive over the box |a|,|b|,|c|,|d| <= 8 (quick) / 16 (thorough) for Rational<i32>, <i64>, <i128>, unreduced and negative-denominator spellings included: 28 families (new, + - * / in by-value, by-reference and both assigning forms, neg, floor, ceil, ==, Hash, cmp, partial_cmp, antisymmetry; transitivity over all triples of distinct box values), plus all quadruples of a boundary set up to 2^30 with overflowing cases computed exactly and skipped.",
+      "Exhaustive over the box |a|,|b|,|c|,|d| <= 8 (quick) / 16 (thorough) for Rational<i32>, <i64>, <i128>, unreduced and negative-denominator spellings included: 28 families (new, + - * / in by-value, by-reference and both assigning forms, neg, floor, ceil, ==, Hash, cmp, partial_cmp, antisymmetry; transitivity over all triples of distinct box values); all quadruples of a boundary set up to 2^30; and all pairs of 826 operands built from neighbouring Fibonacci / Lucas numbers <= 2^30 (Euclid chains up to 84 steps, longer than the bit width); overflowing cases computed exactly and skipped.",
       "Trusted: i128 reference with its own gcd. Bounded: values outside the box and the boundary set.",
       "exhaustive small-scope input enumeration against an exact reference",
       "DESIGN.md §4 C07")
 check("C10", "geometry", "exploration",
-      "Every circle x line, ordered circle pair, ordered line pair, circle x point and line x point on an integer lattice ([-4,4]^2, radii <= 6 quick; [-6,6]^2, radii <= 8 thorough) and on its images under three rational rotations, quarter shifts and integer scalings up to |coordinate| ~ 1e3; the kind of contact is decided exactly in i128 on the pre-image, tangencies (incl. non-axis-aligned ones through Pythagorean triples) are constructed, every returned point is checked against both primitives at 1e-7. The minimum gap to a kind boundary on the enumerated set is measured and asserted >> 1e-9.",
+      "Every circle x line, ordered circle pair, ordered line pair, circle x point and line x point on an integer lattice ([-4,4]^2, radii <= 6 quick; [-6,6]^2, radii <= 8 thorough) and on its images under three rational rotations, quarter shifts and integer scalings up to |coordinate| ~ 1e3, the kind of contact decided exactly in i128; every exact tangency (circle-line, circle-circle inside/outside, border points) fed again with the radius changed by ±1e-8, ±3e-7, ±1e-5 (just outside the library's tolerance, class decided by the sign); a 'skew plane' in units of 2^-19 with 216 nearly axis-parallel lines (defining points 800 apart, 2^-7..2^-19 off axis) crossed with all lattice lines in both argument orders. Every returned point is checked against both primitives at 1e-7.",
       "Trusted: exact integer classification; f64 evaluation of the exact intersection formula for the point oracle. Bounded: rational lattices, not all real configurations.",
       "exhaustive enumeration of exact-rational configurations with integer-arithmetic oracle",
       "DESIGN.md §4 C10")
@@ -44,17 +44,17 @@ check("C11", "gcd", "exploration",
       "exhaustive small-scope input enumeration against a number-theoretic reference",
       "DESIGN.md §4 C11")
 check("C12", "bitset", "model_checking",
-      "Closure BFS of the real Bitset<N> for N = 1, 2, 3 (thorough: also 10) from new/default/from_u64 over set/remove/flip at the word-boundary positions, clear, complement and clone, with test(i) for every i, count, iter_bits, ==, Display and Debug judged after every transition; a bounded sweep with set/remove/flip at EVERY index; and & | ^ and their assigning forms on all ordered pairs of the first 1500 reached sets per N.",
+      "Closure BFS of the real Bitset<N> for N = 1, 2, 3 (thorough: also 10) over set/remove/flip at the word-boundary positions, clear, complement, clone, clone_from and a 'touch a bitset of another capacity' action, and for N = 64, 65, 130 over a reduced alphabet around the 4096-bit boundary, with test(i) for every i, count, iter_bits, ==, Display and Debug judged after every transition; every pass starts on threads that first used bitsets of every other capacity (ascending and descending order), recorded in the replay; a bounded sweep with set/remove/flip at EVERY index; and & | ^ and their assigning forms on all ordered pairs (same object on both sides included) of the first 1500 reached sets per N.",
       "Trusted: Vec<bool> model. Bounded: positions outside the boundary alphabet are reached only by the depth-bounded sweep; operand pairs capped at 1500 states per N (reported).",
       "explicit-state BFS to closure with lockstep set model, exhaustive operand pairs",
       "DESIGN.md §4 C12")
 check("C13", "sieve", "exploration",
-      "For EVERY limit N in 0..=1500 (quick) / 0..=4096 (thorough) a fresh Sieve::new(N) is compared for every n <= N (is_prime, min_prime, primes(), factorize) with trial division, plus N = 10^6 (10^7) element by element against an independent Eratosthenes sieve.",
+      "For EVERY limit N in 0..=1500 (quick) / 0..=4096 (thorough) a fresh Sieve::new(N) is compared for every n <= N (is_prime, min_prime, primes(), factorize) with trial division, plus N = 10^6 and 10^7 (thorough: 2^25) element by element, factorize included, against an independent Eratosthenes sieve; the whole check runs a second time in a build with overflow checks.",
       "Trusted: trial-division and Eratosthenes references (cross-checked against each other and against known prime counts).",
       "exhaustive enumeration of all limits and all arguments up to the bound",
       "DESIGN.md §4 C13")
 check("C14", "rand", "exploration",
-      "gen_from_u64 called directly with an adversarial raw alphabet for every (start,end) of all five range forms of i8/u8 and boundary ranges of the wider types (in-range and reachability), a grid of finite f64 ranges x 2273 raw values (start <= x < end), determinism over 65k seeds, and shuffle over 216000 enumerated seeds (permutation, every order of <= 6 elements reached, counts within [mean/2, 2*mean]), plus absence of a period <= 1024 in 4096-draw streams of small ranges.",
+      "gen_from_u64 called directly with an adversarial raw alphabet for every (start,end) of all five range forms of i8/u8 and boundary ranges of the wider types (in-range and reachability), a grid of finite f64 ranges x 2273 raw values (start <= x < end), determinism over 65k seeds, shuffle over 216000 enumerated seeds (permutation, every order of <= 6 elements reached, counts within [mean/2, 2*mean]), and absence of any period <= max(n, 1024) in streams drawn through EVERY range form of every integer type over value sets of up to 2^16 values (full-width forms of the 8- and 16-bit types included), exact period search.",
       "Trusted: the deterministic count criteria stand in for 'near-equal frequency' and 'not periodic'; signed `..b` with b <= 0 is treated as an empty (out-of-domain) range as in the crate's tests.",
       "exhaustive enumeration of ranges x raw outputs and of seeds, deterministic count criteria",
       "DESIGN.md §4 C14")
@@ -64,34 +64,34 @@ check("C15", "iter", "exploration",
       "exhaustive input enumeration against definitional references",
       "DESIGN.md §4 C15")
 check("C18", "f80", "exploration",
-      "All ordered pairs of a 190-element boundary set of f64 bit patterns (zeros, subnormals, powers of two and neighbours, long carry chains, extremes, infinities, NaN) through + - * / and assigning forms, min, max, all relations, ==, partial_cmp; all members through neg, abs and the conversions; and every operation again on all ordered pairs of 300 (quick) / 2000 (thorough) full-width first-level results, compared bit for bit with a software model of x87 double-extended arithmetic (round-to-nearest-even at 64 bits).",
+      "After the crate's f80_init() (as its header tells users): all ordered pairs of a 190-element boundary set of f64 bit patterns (zeros, subnormals, powers of two and neighbours, long carry chains, extremes, infinities, NaN) through + - * / and assigning forms, min, max, all relations, ==, partial_cmp; all members through neg, abs and the conversions; and every operation again on all ordered pairs of 300 (quick) / 2000 (thorough) full-width first-level results, compared bit for bit with a software model of x87 double-extended arithmetic. A violation is replayed on a fresh thread (from fninit) interleaved with every other f80 operation on the same operands, so that state leaking between calls (x87 register stack, control word) reproduces.",
       "Trusted: the software x87 model (validated against hardware on every arithmetic case it is compared on); x86-64 with 64-bit precision control (asserted at start).",
       "exhaustive pair enumeration over a boundary set and second-level chains against an exact soft-float reference",
       "DESIGN.md §4 C18")
 check("C19", "tensor", "exploration",
-      "All 340 (quick) / 780 (thorough) shapes of rank 1..4 with extents up to 4 / 5: every valid index (row-major offset, bijection, iteration order, single-element writes), every index out of range in exactly one dimension must panic for Index/IndexMut/get_index (incl. those whose flat offset stays inside the storage), constructors reject zero extents and wrong lengths, write/read round trip through the real Writer/Reader, and equality over all pairs of same-rank shapes with equal data.",
+      "All 340 (quick) / 780 (thorough) shapes of rank 1..4 with extents up to 4 / 5: every valid index (row-major offset, bijection, iteration order, single-element writes), every index out of range in exactly one dimension must panic for Index/IndexMut/get_index (incl. those whose flat offset stays inside the storage), constructors (new, from_vec, from_slice, read) reject zero extents and wrong lengths, write/read round trip through the real Writer/Reader, equality over all pairs of same-rank shapes with equal data, and clone() / clone_from() over all ordered pairs of same-rank shapes with the copy examined like a constructed tensor.",
       "Trusted: odometer reference for row-major order; the separator format oracle is the crate's own `output` test.",
       "exhaustive enumeration of shapes and indices",
       "DESIGN.md §4 C19")
 check("C20", "lambda", "exploration",
-      "Enumerates PROGRAMS: all 496 macro shapes (31 capture patterns x 1..4 arguments x return type or none x both call syntaxes; thorough: x 3 body templates) are generated as Rust source, compiled against /repo's macro and run against the equivalent hand-written recursive fn on a grid of arguments; a shape that fails to compile or differs in result or captured state is a violation.",
+      "Enumerates PROGRAMS: all macro shapes (31 capture patterns x 1..4 arguments x return type or none x both call syntaxes) with body template A, plus template D (a recursive call nested as an argument of a recursive call, and block arguments that mutate the captured state) for argument counts 1 and 4 — 744 programs in quick; thorough: templates A-D x all argument counts, 1984 programs — are generated as Rust source, compiled against /repo's macro and run against the equivalent hand-written recursive fn on a grid of arguments; a shape that fails to compile or differs in result or captured state is a violation.",
       "Trusted: the generator emits the same body text for both versions; rustc/cargo. Bounded: at most 4 captures and 4 arguments.",
       "exhaustive enumeration of macro invocation shapes, compiled and executed",
       "DESIGN.md §4 C20")
 
 check("C17", "c17", "model_checking",
-      "Two passes over the same 2-3 thread harness (each thread creates k nodes through from_item/insert_at and merges, splits, removes and collects on a treap it owns; main draws first). loom pass: the treap crate's own source, copied at build time with thread_local!/std::sync/std::thread/statics rerouted to loom, explored under DPOR with preemption bound 2 (quick) / 3 and 3 threads (thorough); every unserialised outcome (per-thread priority streams + treap results) must be among the outcomes of the same bodies run with every operation under one lock, and treap results must equal the solo run. Miri pass: the same bodies free-running on real threads against the real crate; its vector-clock detector reports unsynchronised accesses (static mut, raw cells) that the cooperative scheduler cannot see.",
+      "Two passes over the same 2-3 thread harness (each thread creates k nodes through from_item/insert_at and merges, splits, removes and collects on a treap it owns, then merges and splits three nodes with hand-set EQUAL priorities). loom pass: the treap crate's own source, copied at build time with thread_local!/std::sync/std::thread/statics rerouted to loom, explored under DPOR with preemption bound 2 (quick) / 3 and 3 threads (thorough), once with the main thread drawing a priority before spawning and once 'cold' (the threads' first creations are the first of the process); every unserialised outcome (per-thread priority streams + treap results) must be among the outcomes of the same bodies run with every operation under one lock, and treap results and tie shapes must equal the solo run. Miri pass: the same bodies free-running on real threads against the real crate; its vector-clock detector reports unsynchronised accesses (static mut, raw cells, Relaxed hand-made locks) that the cooperative scheduler cannot see.",
       "Trusted: loom's model of the rerouted primitives; Miri's race detector (one free-running execution per configuration, schedule-independent for unordered access pairs). State shared through something the rewrite does not know is detected (first draw differs between executions) and ends in exit 2, not a verdict.",
       "stateless schedule exploration of the real code under loom (DPOR, preemption-bounded) + free-running Miri race detection",
       "DESIGN.md §4 C17")
 
 check("C03", "treap", "model_checking",
-      "Breadth-first search over states of up to 3 live treaps with at most N nodes where the EXPLORER chooses every priority rank (strictly between or tied with the live levels, also for insert_at, whose draw is predicted and the live priorities re-spaced around it), so every weak ordering of priorities = every tree shape is realised. Every action (new, merge of every ordered pair, split_at/split_by at every position, insert_at, remove_at, a lazy add-1 or assign-0 attached at the root, first/last/collect/size/root, merge with empty) in every reached state against vector models; invariants in every state: collect() on a copy = model, root aggregate = fold, every node's cached size and aggregate = its own subtree. Closure (histories of any length) for N <= 4 (quick) / 5 (thorough), all histories to depth 6 for N = 5 / 6.",
+      "Breadth-first search over states of up to 3 live treaps with at most N nodes where the EXPLORER chooses every priority rank (strictly between or tied with the live levels, also for insert_at, whose draw is located in the generator stream by a probe and the live priorities re-spaced around it), so every weak ordering of priorities = every tree shape is realised; before every non-creating action the lowest and highest live priority are stretched to 0 and u32::MAX. Every action (new, merge of every ordered pair, split_at, split_by with an id predicate AND with every value predicate that is prefix-monotone on the current sequence, insert_at, remove_at, a lazy add-1 or assign-0 attached at the root, first/last/collect/size/root, merge with empty) in every reached state against vector models; invariants in every state: collect() on a copy = model, root aggregate = fold, every node's cached size and aggregate = its own subtree. Closure for N <= 4 (quick) / 5 (thorough), all histories to depth 6 for N = 5 / 6. The same exploration runs a second time in a build with debug assertions and overflow checks.",
       "Trusted: the harness item is a lawful TreapItem (value in Z3, size, word aggregate, affine pending tag); vector model. Bounded: more than N live nodes / 3 live treaps.",
       "explicit-state BFS to closure over the real treap with explorer-chosen priorities, lockstep vector models",
       "DESIGN.md §4 C03")
 check("C16", "treap", "model_checking",
-      "(a) Heap order along every parent-child edge, consistently in one direction, is an invariant checked in every state of the C03 exploration (every priority ordering incl. ties, closure for N <= 4, bounded depth above). (b) Height: a fixed menu of 8 adversarial deterministic histories (sorted appends, front insertion, middle / one-third insertion, split-and-swap rotations, append/remove alternation, two treaps merged, from_item+merge) through the REAL priority generator at 6 stream offsets up to 10^5 (quick) / 10^6 (thorough) elements, height probed at every doubling against 5*log2(n+1)+20 — labelled non-exhaustive.",
+      "(a) Heap order along every parent-child edge, consistently in one direction, is an invariant checked in every state of the C03 exploration (every priority ordering incl. ties and the extreme values 0 / u32::MAX, closure for N <= 4, bounded depth above). (b) Height: a directed menu of 122 deterministic histories through the REAL priority generator at up to 6 stream offsets — single-treap orders (sorted appends and front insertion to 10^6 elements, middle / one-third insertion, rotations, append/remove alternation), block concatenation with a Treap::new() per block, k treaps filled round-robin for 17 values of k (every treap probed), sliding windows, fixed-length queues, node-free operations interleaved — height probed at every doubling against 5*log2(n+1)+20. Labelled non-exhaustive.",
       "Part (b) is an enumeration of a finite menu of deterministic executions, not of all histories; the probabilistic sentence of the property cannot be established by any bounded exploration and is used only to justify that a correct implementation never trips the bound on the menu.",
       "explicit-state BFS (heap-order invariant) + directed long histories for the height bound",
       "DESIGN.md §4 C16")
@@ -108,7 +108,7 @@ check("C09", "writer", "model_checking",
       "DESIGN.md §4 C09")
 
 check("C04", "fft", "model_checking",
-      "The state of an FFT object that can influence a later call is the size of its twiddle / bit-reversal tables. ALL states 4..2^11 (quick) / 2^13 (thorough), each reached both by update_n and by a large multiply, x ALL calls of the alphabet: every length pair of 0..40 ∪ {63..65,127..129} (thorough 0..130 and around 2^8..2^10) x 12 coefficient pattern pairs (all ±A, alternating, spikes, ends, ramp, irregular) x magnitudes {1, sqrt(Amax), Amax} on the envelope boundary, for f64 and f32; all vectors over {-A,-1,0,1,A} for lengths <= 4; envelope corners with long vectors; all call histories of length <= 3 over a 7-call alphabet. Each call is judged against the schoolbook convolution in i128, against a fresh object, repeated on the same object, through multiply_into on a pre-filled destination, and through fft x fft -> fft_inv / fft_inv_into.",
+      "The state of an FFT object that can influence a later call is the size of its twiddle / bit-reversal tables. ALL states 4..2^11 (quick) / 2^13 (thorough), each reached both by update_n and by a large multiply, x ALL calls of the alphabet: every length pair of 0..40 ∪ {63..65,127..129} (thorough 0..130 and around 2^8..2^10) x 12 coefficient pattern pairs x magnitudes {1, sqrt(Amax), Amax} on the envelope boundary, for f64 and f32; all vectors over {-A,-1,0,1,A} for lengths <= 4; envelope corners with long vectors up to 65536 x 65536 (transform size 2^17; thorough 2^19); all call histories of length <= 3 over an 8-call alphabet that includes a 70000-long multiply. Every call runs on a CLONE of the grown object and is judged against the schoolbook convolution (exact, i128 / parallel i64), against a fresh object, repeated on the same object, through multiply_into on a pre-filled destination, and through fft x fft -> fft_inv / fft_inv_into (also at transform size 1).",
       "Envelope read as max|coef|^2 * max(len a, len b) <= 1e12 (f64) / 1e3 (f32): inside the property's formula and inside the crate's published table also for unequal lengths (see DESIGN §4 C04 for why min(len) was a false alarm). Coefficient vectors are boundary-magnitude families and a 5-letter alphabet, not all of Z^n (exhaustive: false).",
       "all object states x all calls of a finite alphabet, exact integer reference; bounded call histories",
       "DESIGN.md §4 C04")
